@@ -144,6 +144,11 @@ func keepNilLiteralCallListChainMiddleware(next _LiteralCallMiddlewareHandler) _
 			}
 
 			elem := next(env, nextRecv, chainArg, args, kwargs)
+			// NOTE: raised error stops the chain (it must not be kept as an element)
+			if elem.Type() == object.ErrType {
+				return elem
+			}
+
 			elems = append(elems, elem)
 		}
 
